@@ -2,6 +2,21 @@
 
 #include "ccl/env/cclEnvironment.h"
 
+#ifdef CONCEPTCORE_VERIF
+// Verification hook (guarded, add-only): identifiers are drawn from a seedable process-wide
+// generator instead of std::random_device, so that recorded histories replay exactly.
+#include <random>
+namespace ccl::verif {
+std::mt19937& Rng() {
+  static std::mt19937 generator{ 20260929U };
+  return generator;
+}
+void Seed(const uint32_t seed) {
+  Rng().seed(seed);
+}
+} // namespace ccl::verif
+#endif
+
 namespace ccl::tools {
 
 void EntityGenerator::Clear() noexcept {
@@ -12,7 +27,11 @@ EntityUID EntityGenerator::NewUID() {
   EntityUID result{ 0 };
   const auto oldSize = ssize(entities);
   while (ssize(entities) == oldSize) {
+#ifdef CONCEPTCORE_VERIF
+    result = static_cast<EntityUID>(distribution(ccl::verif::Rng()));
+#else
     result = static_cast<EntityUID>(distribution(Environment::RNG()));
+#endif
     entities.emplace(result);
   }
   return result;
